@@ -103,17 +103,19 @@ def free_trees(gw, base, rng, n):
                     ok, why = False, "C17.generated-tree-differs-after-resync"
                 else:
                     # the same RSync object once more, after an edit that keeps the size (only content and mtime change)
+                    # (twice: whatever the object remembers from one round must not decide the next one)
                     vp = os.path.join(src, victim)
-                    data = open(vp, "rb").read()
-                    with open(vp, "wb") as f:
-                        f.write(bytes((b + 1) % 256 for b in data))
-                    t2 = int(os.lstat(vp).st_mtime) + 77
-                    os.utime(vp, (t2, t2))
-                    for d in dests:
-                        r.add_target(gw, d, delete=True)
-                    r.send()
-                    if any(tree(d) != tree(src) for d in dests):
-                        ok, why = False, "C17.second-send-of-the-same-RSync-object-left-a-target-stale"
+                    for _round in range(2):
+                        data = open(vp, "rb").read()
+                        with open(vp, "wb") as f:
+                            f.write(bytes((b + 1) % 256 for b in data))
+                        t2 = int(os.lstat(vp).st_mtime) + 77
+                        os.utime(vp, (t2, t2))
+                        for d in dests:
+                            r.add_target(gw, d, delete=True)
+                        r.send()
+                        if any(tree(d) != tree(src) for d in dests):
+                            ok, why = False, "C17.second-send-of-the-same-RSync-object-left-a-target-stale"
         except Exception as e:  # noqa: BLE001
             ok, why = False, "C17.send-raised-" + type(e).__name__
         finally:
